@@ -387,6 +387,11 @@ func runC01(c *Ctx) error {
 	defer ci.Close()
 	l := c.lean()
 	defer l.Close()
+	if os.Getenv("VERIF_C01_ONLY_DEEP") != "" { // development aid: only the exact-size / literal-derived reorganisations
+		err := c01DeepReorgs(c, l)
+		c.R.ModelOps = l.Ops
+		return err
+	}
 	if c.Replay != "" {
 		ops, err := lib.ReadReplayOps(c.Replay)
 		if err != nil {
@@ -470,6 +475,9 @@ func runC01(c *Ctx) error {
 	}
 	if c.Replay == "" {
 		if err := c01DeepReorgs(c, l); err != nil {
+			return err
+		}
+		if err := c01ImportedThenFork(c); err != nil {
 			return err
 		}
 	}
